@@ -245,7 +245,11 @@ class NetworkClient(KGLambda):
                     await on_message(self, msg)
                 except Exception as e:
                     logging.warning(f"error while running on_message handler: {e}")
-            await run_command_on_klongloop(self.klongloop, self.klong, ".ws.m", msg, self)
+            try:
+                await run_command_on_klongloop(self.klongloop, self.klong, ".ws.m", msg, self)
+            except Exception as e:
+                # the failure belongs to this message; the connection goes on
+                logging.warning(f"error while running .ws.m handler: {e}")
             # if response is not None and response is not KLONG_UNDEFINED:
             #     await self.websocket.send(encode_message(response))
         except websockets.exceptions.ConnectionClosed:
